@@ -257,3 +257,13 @@ func (n *Node) RangeSites() []int {
 	}
 	return out
 }
+
+// HasKind reports whether any rewritten site has the given kind.
+func (n *Node) HasKind(kind string) bool {
+	for _, s := range n.Sites {
+		if s.Kind == kind {
+			return true
+		}
+	}
+	return false
+}
